@@ -36,10 +36,13 @@ func msgInFromSpec(m map[string]any) *flows.MsgIn {
 
 // buildTrigger returns nil, nil when the spec has no builder equivalent (the caller then reads the JSON)
 func buildTrigger(sa flows.SessionAssets, spec map[string]any) (flows.Trigger, error) {
-	cj, _ := json.Marshal(spec["contact"])
-	contact, err := flows.ReadContact(sa, cj, assets.IgnoreMissing)
-	if err != nil {
-		return nil, err
+	var contact *flows.Contact
+	var err error
+	if spec["contact"] != nil { // no contact: a session without contact (legal through the builder API)
+		cj, _ := json.Marshal(spec["contact"])
+		if contact, err = flows.ReadContact(sa, cj, assets.IgnoreMissing); err != nil {
+			return nil, err
+		}
 	}
 	env := envs.NewBuilder().Build()
 	if e, ok := spec["environment"]; ok {
